@@ -104,6 +104,77 @@ func checkPayloadBytes(c plCase) evid.Outcome {
 	return evid.Outcome{NonTrivial: rfu || max, Class: s.Name, Key: append([]byte(s.Name), c.Bytes...)}
 }
 
+// ---- every MAC command inside a frame of each message type of its direction ----
+
+type inFrameCase struct {
+	Name  string `json:"payload"`
+	MType byte   `json:"mtype"`
+	Where string `json:"where"` // fopts | frm0
+	Fill  byte   `json:"fill"`  // the payload bytes are Fill, Fill+1, ...
+}
+
+func checkInFrame(c inFrameCase) evid.Outcome {
+	s := ref.SpecByName(c.Name)
+	if s == nil || !ref.IsData(c.MType) || ref.IsUplinkMType(c.MType) != s.Uplink {
+		return evid.Outcome{Skip: true}
+	}
+	pl := make([]byte, s.Len)
+	for i := range pl {
+		pl[i] = c.Fill + byte(i)
+	}
+	want, err := s.Decode(pl)
+	if err != nil {
+		return evid.Outcome{Skip: true}
+	}
+	// the command between two payload-less commands of its direction, so that a wrong length shows
+	pad := byte(0x06) // DevStatusReq (downlink, no payload)
+	if s.Uplink {
+		pad = 0x02 // LinkCheckReq (uplink, no payload)
+	}
+	stream := append(append([]byte{pad, s.CID}, pl...), pad)
+	f := ref.Frame{MType: c.MType, DevAddr: 0x26011f2a, FCnt: 7, FPort: -1}
+	if c.Where == "fopts" {
+		if len(stream) > 15 {
+			return evid.Outcome{Skip: true}
+		}
+		f.FOpts = stream
+	} else {
+		f.FPort, f.FRM = 0, stream
+	}
+	var q lorawan.PHYPayload
+	if err := q.UnmarshalBinary(f.Encode()); err != nil {
+		return evid.Fail("MType %d frame %x carrying %s in %s does not decode: %v", c.MType, f.Encode(), s.Name, c.Where, err)
+	}
+	m := q.MACPayload.(*lorawan.MACPayload)
+	var items []lorawan.Payload
+	if c.Where == "fopts" {
+		err = q.DecodeFOptsToMACCommands()
+		items = m.FHDR.FOpts
+	} else {
+		err = q.DecodeFRMPayloadToMACCommands()
+		items = m.FRMPayload
+	}
+	if err != nil || len(items) != 3 {
+		return evid.Fail("MType %d (%s) frame carrying the commands %x in %s: command decode gives %d commands, error %v; the stream holds 3 (%02x, %s, %02x)", c.MType, dirName(s.Uplink), stream, c.Where, len(items), err, pad, s.Name, pad)
+	}
+	mc, ok := items[1].(*lorawan.MACCommand)
+	if !ok || byte(mc.CID) != s.CID || mc.Payload == nil {
+		return evid.Fail("MType %d (%s) frame carrying %s (%x) in %s: the second command decodes as %+v", c.MType, dirName(s.Uplink), s.Name, stream, c.Where, items[1])
+	}
+	got := gen.Flatten(mc.Payload)
+	if !got.Equal(want) && !(s.Name == "DutyCycleReq" && got["MaxDCycle"] == int64(pl[0])) {
+		return evid.Fail("MType %d (%s) frame carrying %s with payload %x in %s: decoded fields %v (as %T), the specification layout for this direction gives %v", c.MType, dirName(s.Uplink), s.Name, pl, c.Where, got, mc.Payload, want)
+	}
+	return evid.Outcome{NonTrivial: true, Class: fmt.Sprintf("%s/mtype%d/%s", s.Name, c.MType, c.Where)}
+}
+
+func dirName(up bool) string {
+	if up {
+		return "uplink"
+	}
+	return "downlink"
+}
+
 // ---- MAC payload value -> bytes -> value (3-5 byte payloads, generated) ----
 
 type valCase struct {
@@ -597,6 +668,21 @@ func TestProp(t *testing.T) {
 				}
 			}
 		}, checkPayloadBytes)
+
+	evid.Exhaustive(r, t, "commands-in-frames",
+		"every MAC command that carries a payload x each of the two data message types of its direction (unconfirmed, confirmed) x FOpts / port-0 FRMPayload x 4 payload byte patterns, the command placed between two payload-less commands: the frame is built by the wire model, decoded by the library (UnmarshalBinary + DecodeFOptsToMACCommands / DecodeFRMPayloadToMACCommands) and the command's fields must be the model's reading of the payload bytes for that direction. Every case is non-trivial.",
+		true,
+		func(emit func(inFrameCase)) {
+			for i := range ref.Specs {
+				for mt := byte(ref.MTUnconfUp); mt <= ref.MTConfDown; mt++ {
+					for _, where := range []string{"fopts", "frm0"} {
+						for _, fill := range []byte{0x00, 0x11, 0x5a, 0xc3} {
+							emit(inFrameCase{Name: ref.Specs[i].Name, MType: mt, Where: where, Fill: fill})
+						}
+					}
+				}
+			}
+		}, checkInFrame)
 
 	evid.Exhaustive(r, t, "header-bytes-exhaustive",
 		"all 256 MHDR bytes, all 256 FCtrl bytes (also through FHDR with that many FOpts bytes), all 256 DLSettings bytes, both directions against the bit layout. Non-trivial: reserved MHDR bits set / MType 7 / FOptsLen 15 / all flags / OptNeg or offset 7.",
